@@ -298,8 +298,13 @@ def install_observers(algorithm, executor, cluster, job):
 
     fired = []
 
+    def dig(s):
+        import zlib
+
+        return zlib.crc32(s.test_case.to_code().encode())
+
     def oarch(a):
-        return {"covered": [(gi(g), osol(s)) for g, s in a._covered.items()],
+        return {"covered": [(gi(g), {**osol(s), "dig": dig(s)}) for g, s in a._covered.items()],
                 "uncovered": [gi(g) for g in a._uncovered], "objectives": [gi(g) for g in a._objectives],
                 "fired": list(fired)}
 
@@ -335,8 +340,13 @@ def install_observers(algorithm, executor, cluster, job):
 
     def update(self, solutions):
         solutions = list(solutions)
-        if self is not a or len(rec["arch"]) >= limit:
+        if self is not a:
             return orig_update(self, solutions)
+        if len(rec["arch"]) >= limit:          # no more records, but archived tests are still re-executed
+            out = orig_update(self, solutions)
+            if job.get("reexecute", True):
+                reexecute(self)
+            return out
         sols = [osol(s, self._objectives) for s in solutions]
         before = oarch(self)
         out = orig_update(self, solutions)
